@@ -158,6 +158,31 @@ def check(ctx: Ctx) -> None:
     loops = ctx.nodes(start, lambda n: n.op == "test" and isinstance(n.stmt, ast.While))
     ok = any(ctx.eff.paths(start).of(t.ast) == "self._connected" for t in loops)
     rep.ob("R19.6", "the client's interaction loop runs while connected", ok, func=start, construct=loops[0] if loops else "(no while loop)")
+    # ---------------------------------------------------------------- R19.7
+    rep.rule("R19.7", "sessions are served concurrently: no function of session.py / server.py holds a lock, semaphore or condition that is shared between "
+                      "sessions (reachable through the server, a class or a module) across a suspension step - one client's waiting command would block "
+                      "every other session, hide its EOF and delay the stop")
+    n_regions = 0
+    for fn in [x for x in prog.all_functions() if x.module.name in ("control.session", "control.server")]:
+        g2 = ctx.an.cfg(fn)
+        sc2 = ctx.an.scope(fn)
+        for en in ctx.nodes(fn, lambda n: n.op == "enter" and isinstance(n.stmt, ast.AsyncWith)):
+            t = sc2.ty(en.ast.context_expr)
+            if t is None or t.head not in ("Lock", "Semaphore", "Condition", "asyncio.locks.Condition"):
+                continue
+            n_regions += 1
+            exits = [x for x in g2.nodes if x.op == "exit_ctx" and x.ast is en.ast]
+            inside = between([en], exits)
+            susp = [m for m in inside if m.suspends]
+            path = ctx.eff.paths(fn).of(en.ast.context_expr) or ast.unparse(en.ast.context_expr)
+            own = path.startswith("self._") and path.count(".") == 1 and prog.enclosing_class(fn) is sess and \
+                (sess.fields.get(path.split(".")[1]) is not None and sess.fields[path.split(".")[1]][2].name == "__init__")
+            rep.ob("R19.7", "a synchronisation object shared between sessions is not held across a suspension step", own or not susp, node=en,
+                   detail="" if (own or not susp) else f"{path} is held while `{susp[0].text(50)}` waits ({susp[0].where()})")
+        for aw in ctx.nodes(fn, lambda n: n.op == "await" and n.awaited is not None and n.awaited.kind == "ext" and n.awaited.name in ("Lock.acquire", "Semaphore.acquire", "Condition.acquire")):
+            n_regions += 1
+            rep.ob("R19.7", "no explicit acquire of a lock/semaphore in the serving path", False, node=aw)
+    rep.ob("R19.7", "lock regions in session.py / server.py examined", True, construct=f"{n_regions} region(s)")
     # positive/negative controls for the effect table
     ctl = [e for e in ctx.eff.all() if e.kind == "close" and e.container == "StreamWriter"]
     rep.floor("R19.6", "StreamWriter.close sites in the package (server side + client side)", len(ctl), 2)
